@@ -461,6 +461,31 @@ theorem C03_defaults_need_returning :
     rowOf [⟨"code", .none⟩, ⟨"rank", .db⟩] (fun _ => 7) [5, 0] = [5, 7] ∧
     memAfter true [⟨"code", .none⟩, ⟨"rank", .db⟩] (fun _ => 7) [5, 0] = [5, 7] := by decide
 
+/-- GENERATED NON-INTEGER KEYS without RETURNING, the negation of finding F25's pattern: the LastInsertId back-fill of a
+    single record (create.go:182-186, guarded only by `PrioritizedPrimaryField.HasDefaultValue`) hands a zero-key record
+    the key of its row whenever the key the database generated for the row IS the insert id the driver reports (an
+    auto-increment integer key); preset keys are kept. -/
+theorem C03_backfill_generated_key_partial (k rowKey lastId : Int) (h : if k = 0 then rowKey = lastId else rowKey = k) :
+    backfillOne k lastId = rowKey := by
+  unfold backfillOne
+  by_cases hk : k = 0
+  · rw [if_pos hk] at h ⊢; exact h.symm
+  · rw [if_neg hk] at h ⊢; exact h.symm
+
+/-- FINDING F25 (kernel-checked witness): no RETURNING, the key is produced by a DB expression (row key 465751923), the
+    driver reports insert id 1 (SQLite's rowid): the guards pass (`hasAutoPk` = HasDefaultValue) and the record receives
+    key 1 — not the key of the row that stores it. -/
+theorem C03_backfill_generated_key_counterexample :
+    createBackfillSlice true true 1 [0] ⟨1, some 1⟩ = [1] ∧ backfillOne 0 1 = 1 ∧ (1 : Int) ≠ 465751923 := by decide
+
+/-- FINDING F26 (kernel-checked witness): no RETURNING, `Create(&[]map{{"id":100001,…},{"id":100011,…}})` through a model
+    with an auto-increment key: the rows keep the preset keys (100001, 100011), LastInsertId is 100011, and the map loop
+    (create.go:128-147) hands out 100010, 100011 — map 0 carries a key that is not its row's.  The negation of the pattern
+    (maps without keys) is `C03_maps_backfill_partial`. -/
+theorem C03_maps_preset_keys_counterexample :
+    (dbInsert 0 [100001, 100011]).1 = [100001, 100011] ∧ lastRowId (dbInsert 0 [100001, 100011]).1 = some 100011 ∧
+    backfillMaps true [true, true] 100011 = [some 100010, some 100011] := by decide
+
 /-- non-vacuity: representable values exist at the boundaries; the partial theorem's hypothesis is satisfiable
     by non-trivial batches -/
 example : representable { base := .int .w8 } (some (.int .i8 (-128))) = true := by decide
